@@ -7,7 +7,7 @@ use serde_json::Value;
 
 pub const META: PropMeta = PropMeta {
     level: "exploration",
-    rule: "stateful generation over the full value range of every public muxer argument: movie/track timescales incl. 0, SPS/PPS of length 0..5, normal, and > 65535 bytes, language strings (empty, 1, 2, 4+ letters, upper case, non-ASCII, NUL, very long), every u32 duration incl. u32::MAX runs, sample sizes 0..64 KiB and a few >= 16 MiB samples, unknown track ids, no tracks, up to 100 tracks; every call is guarded: oracle = no call panics (both build profiles; process death is caught by the supervisor). When every call returned Ok and every track duration is representable (< 2^62 movie ticks) the C02 structural oracle and the C01 read-back oracle are applied to the output. Non-trivial = at least one argument outside the documented-valid domain, or an all-Ok history that went through the C01/C02 oracles with >= 1 sample. Distinct = hash of the history.",
+    rule: "stateful generation over the full value range of every public muxer argument: movie/track timescales incl. 0, SPS/PPS of length 0..5, normal, and > 65535 bytes, language strings (empty, 1, 2, 4+ letters, upper case, non-ASCII, NUL, very long), every u32 duration incl. u32::MAX runs, sample sizes 0..64 KiB and a few >= 16 MiB samples, unknown track ids, no tracks, up to 100 tracks; every call is guarded: oracle = no call panics (both build profiles; process death is caught by the supervisor). Stage 'after-io-error': a generated history is muxed into a sink of which one stream call fails (I/O error or zero-length write, position generated), the caller ignores the Err and completes the history: later calls may return Ok or Err, none may panic. Sample and parameter-set content includes Annex B start codes, ADTS headers, all-zero and all-0xFF bytes. When every call returned Ok and every track duration is representable (< 2^62 movie ticks) the C02 structural oracle and the C01 read-back oracle are applied to the output. Non-trivial = at least one argument outside the documented-valid domain, or an all-Ok history that went through the C01/C02 oracles with >= 1 sample. Distinct = hash of the history.",
     assumptions: &["AAC enum arguments are typed in the API, so only declared variants can be passed"],
 };
 
@@ -209,9 +209,58 @@ pub fn run(ctx: &mut Ctx) {
     ctx.stage("random");
     let cases = ctx.pick(300_000u32, 2_000_000u32) / ctx.nshards;
     ctx.run_prop(weird_history(), cases, |ctx, c| oracle(ctx, c));
+    // ---- call sequences that go on after a call has failed: one stream call of the sink fails
+    // (an I/O error or a zero-length write), the caller ignores the Err and keeps calling
+    // write_sample / write_end. Every later call may return Ok or Err; none may panic. ----
+    ctx.stage("after-io-error");
+    let cases = ctx.pick(40_000u32, 400_000u32) / ctx.nshards;
+    let strat = (mux::mux_history(3, 40, 0.02), any::<u16>(), any::<bool>()).prop_map(|(case, frac, zero)| AfterFault { case, frac, zero });
+    ctx.run_prop(strat, cases, |ctx, c| after_fault(ctx, c));
 }
 
-pub fn replay(ctx: &mut Ctx, _stage: &str, case: &Value) -> Check {
+#[derive(Clone, Debug, serde::Serialize, serde::Deserialize)]
+pub struct AfterFault {
+    pub case: MuxCase,
+    /// which stream call fails, as a fraction of the calls the fault-free run makes
+    pub frac: u16,
+    pub zero: bool,
+}
+
+fn after_fault(ctx: &mut Ctx, c: &AfterFault) -> Check {
+    use crate::io::{FaultKind, FaultStream};
+    use std::io::Cursor;
+    let kind = || if c.zero { FaultKind::Zero } else { FaultKind::Error };
+    let (probe, st) = FaultStream::new(Cursor::new(Vec::new()), u64::MAX, kind());
+    let r0 = mux::run_mux(&c.case, probe);
+    if let Some(f) = mux::first_panic(&r0) {
+        return Err(f);
+    }
+    let total = st.calls.get();
+    if total == 0 {
+        return Ok(());
+    }
+    let k = (c.frac as u64 * total) >> 16;
+    let (stream, st) = FaultStream::new(Cursor::new(Vec::new()), k, kind());
+    let r = mux::run_mux(&c.case, stream);
+    if let Some(f) = mux::first_panic(&r) {
+        return Err(Failure::new(format!("{}:after-io-error", f.sig), format!("{} (stream call {} of {} had failed with {} and the caller went on)", f.detail, k, total, if c.zero { "a zero-length write" } else { "an I/O error" })));
+    }
+    if st.fired.get() {
+        let after = r.calls.iter().skip_while(|(_, o)| !matches!(o, CallOutcome::Err(_))).count();
+        if after >= 2 {
+            ctx.count("after-io-error:calls-made-after-the-failed-one");
+            ctx.nontrivial(fingerprint(&c.case) ^ k.wrapping_mul(0x9e37_79b9));
+            ctx.sample("after-io-error", &serde_json::json!({"ops": c.case.ops.len(), "tracks": c.case.tracks.len(), "failed_stream_call": k, "of": total, "calls_after_failure": after}));
+        }
+    }
+    Ok(())
+}
+
+pub fn replay(ctx: &mut Ctx, stage: &str, case: &Value) -> Check {
+    if stage == "after-io-error" {
+        let c: AfterFault = serde_json::from_value(case.clone()).map_err(|e| Failure::new("replay:bad-case", e.to_string()))?;
+        return after_fault(ctx, &c);
+    }
     let c: MuxCase = serde_json::from_value(case.clone()).map_err(|e| Failure::new("replay:bad-case", e.to_string()))?;
     oracle(ctx, &c)
 }
